@@ -8,6 +8,12 @@
   updates after merges, resets in between).
 -/
 import TE.Lemmas.Parts
+import TE.Lemmas.FamStat
+import TE.Lemmas.FamStatCount
+import TE.Lemmas.FamStatAgg
+import TE.Lemmas.FamStatBinned
+import TE.Lemmas.FamStatText
+import TE.Lemmas.FamStatList
 namespace TE.C01
 open TE
 
@@ -88,6 +94,221 @@ example :
     let t := Hist.merge (Hist.merge .fresh [a, b]) [c]
     (eval (additive partsAcc stat outA) t).toOption.bind (fun s => (outA s).toOption) = some 3
       ∧ flatten t = [1, 2, 6] := by
+  decide +kernel
+
+/-! ## the typed metric families (TE/Model/Fams.lean)
+
+  `FamStat.MergeTreeEqFunctional M stat catB` (TE/Lemmas/FamStat.lean) says, for EVERY `outA`:
+  whatever tree of `update` / `merge_state` / `reset` calls (any number of shards, empty
+  shards, fresh targets, sources merged twice, updates after merges) ran without error and
+  produced the state `s`: `s` is the sum of the statistics of the batches alive in the tree,
+  and for EVERY ordering `bs` of those batches `s` is the state of one instance fed `bs`, whose
+  `compute()` is the functional `stat >=> outA` applied to the concatenation `catB bs`.
+  The `…Ordered` form (list accumulators) keeps the merge order. -/
+open TE.Fams
+
+/-- `refines` + `StatCat`: every merge tree equals one instance that saw everything, in any
+    order, and the functional on the concatenation of everything. -/
+theorem merge_tree_eq_functional {A : Type} (M : Acc A) (L : CommLaws M) {stat : B → Except Err A}
+    {catB : List B → B} (hc : FamStat.StatCat M stat catB) : FamStat.MergeTreeEqFunctional M stat catB :=
+  FamStat.mergeTree_of_statCat M L hc
+
+/-- order-carrying accumulators: the same in merge order. -/
+theorem merge_tree_eq_functional_ordered {A : Type} (M : Acc A) (L : Laws M) {stat : B → Except Err A}
+    {catB : List B → B} (hc : FamStat.StatCat M stat catB) :
+    FamStat.MergeTreeEqFunctionalOrdered M stat catB :=
+  FamStat.mergeTree_ordered_of_statCat M L hc
+
+/-- BinaryAccuracy. -/
+theorem C01_merge_tree_binaryAccuracy (thr : Q) :
+    FamStat.MergeTreeEqFunctional partsAcc (binaryAccuracyStat thr) catPair :=
+  merge_tree_eq_functional partsAcc partsAcc_laws (FamStat.statCat_binaryAccuracy thr)
+
+/-- MulticlassAccuracy (k = 1; every average, predictions = labels or arg-max of logits). -/
+theorem C01_merge_tree_mcAccuracy (avg : Count.Avg) (C : Nat) :
+    FamStat.MergeTreeEqFunctional partsAcc (mcAccuracyStat avg C) catPair :=
+  merge_tree_eq_functional partsAcc partsAcc_laws (FamStat.statCat_mcAccuracy avg C)
+
+/-- MulticlassAccuracy (top-k on logit rows of width W; every average). -/
+theorem C01_merge_tree_mcAccuracyTopk (avg : Count.Avg) (C k W : Nat) :
+    FamStat.MergeTreeEqFunctional partsAcc (mcAccuracyTopkStat avg C k W) catPair :=
+  merge_tree_eq_functional partsAcc partsAcc_laws (FamStat.statCat_mcAccuracyTopk avg C k W)
+
+/-- MultilabelAccuracy (every criterion). -/
+theorem C01_merge_tree_multilabelAccuracy (thr : Q) (crit : Count.Crit) :
+    FamStat.MergeTreeEqFunctional partsAcc (multilabelAccuracyStat thr crit) catPair :=
+  merge_tree_eq_functional partsAcc partsAcc_laws (FamStat.statCat_multilabelAccuracy thr crit)
+
+/-- TopKMultilabelAccuracy (every criterion). -/
+theorem C01_merge_tree_topkMultilabel (crit : Count.Crit) (k : Nat) :
+    FamStat.MergeTreeEqFunctional partsAcc (topkMultilabelStat crit k) catPair :=
+  merge_tree_eq_functional partsAcc partsAcc_laws (FamStat.statCat_topkMultilabel crit k)
+
+/-- BinaryPrecision. -/
+theorem C01_merge_tree_binaryPrecision (thr : Q) :
+    FamStat.MergeTreeEqFunctional partsAcc (binaryPrecisionStat thr) catPair :=
+  merge_tree_eq_functional partsAcc partsAcc_laws (FamStat.statCat_binaryPrecision thr)
+
+/-- BinaryRecall. -/
+theorem C01_merge_tree_binaryRecall (thr : Q) :
+    FamStat.MergeTreeEqFunctional partsAcc (binaryRecallStat thr) catPair :=
+  merge_tree_eq_functional partsAcc partsAcc_laws (FamStat.statCat_binaryRecall thr)
+
+/-- BinaryF1Score. -/
+theorem C01_merge_tree_binaryF1 (thr : Q) :
+    FamStat.MergeTreeEqFunctional partsAcc (binaryF1Stat thr) catPair :=
+  merge_tree_eq_functional partsAcc partsAcc_laws (FamStat.statCat_binaryF1 thr)
+
+/-- MulticlassPrecision (every average). -/
+theorem C01_merge_tree_mcPrecision (avg : Count.Avg) (C : Nat) :
+    FamStat.MergeTreeEqFunctional partsAcc (mcPrecisionStat avg C) catPair :=
+  merge_tree_eq_functional partsAcc partsAcc_laws (FamStat.statCat_mcPrecision avg C)
+
+/-- MulticlassRecall and MulticlassF1Score (same `_update`; every average). -/
+theorem C01_merge_tree_mcRecall (avg : Count.Avg) (C : Nat) :
+    FamStat.MergeTreeEqFunctional partsAcc (mcRecallStat avg C) catPair :=
+  merge_tree_eq_functional partsAcc partsAcc_laws (FamStat.statCat_mcRecall avg C)
+
+/-- MulticlassConfusionMatrix. -/
+theorem C01_merge_tree_confusion (C : Nat) (checkP checkL : Bool) :
+    FamStat.MergeTreeEqFunctional partsAcc (confusionStat C checkP checkL) catPair :=
+  merge_tree_eq_functional partsAcc partsAcc_laws (FamStat.statCat_confusion C checkP checkL)
+
+/-- BinaryConfusionMatrix. -/
+theorem C01_merge_tree_binaryConfusion (thr : Q) :
+    FamStat.MergeTreeEqFunctional partsAcc (binaryConfusionStat thr) catPair :=
+  merge_tree_eq_functional partsAcc partsAcc_laws (FamStat.statCat_binaryConfusion thr)
+
+/-- Mean (scalar or per-sample weights). -/
+theorem C01_merge_tree_mean :
+    FamStat.MergeTreeEqFunctional partsAcc (meanStat) catWeighted :=
+  merge_tree_eq_functional partsAcc partsAcc_laws (FamStat.statCat_mean)
+
+/-- Sum (scalar or per-sample weights). -/
+theorem C01_merge_tree_sum :
+    FamStat.MergeTreeEqFunctional partsAcc (sumStat) catWeighted :=
+  merge_tree_eq_functional partsAcc partsAcc_laws (FamStat.statCat_sum)
+
+/-- MeanSquaredError, streams of one arity d (all 1-D, or all (n, d)); optional sample weights. -/
+theorem C01_merge_tree_mse (d : Nat) :
+    FamStat.MergeTreeEqFunctional partsAcc (mseStat d) (catCols d) :=
+  merge_tree_eq_functional partsAcc partsAcc_laws (FamStat.statCat_mse d)
+
+/-- R2Score, streams of one arity d. -/
+theorem C01_merge_tree_r2 (d : Nat) :
+    FamStat.MergeTreeEqFunctional partsAcc (r2Stat d) (catCols d) :=
+  merge_tree_eq_functional partsAcc partsAcc_laws (FamStat.statCat_r2 d)
+
+/-- BinaryNormalizedEntropy (`ln`, `exp` parameters; per task row). -/
+theorem C01_merge_tree_bne (ln exp : Q → Q) (fl : Bool) (nt : Nat) :
+    FamStat.MergeTreeEqFunctional partsAcc (bneStat ln exp fl nt) (catTasks nt) :=
+  merge_tree_eq_functional partsAcc partsAcc_laws (FamStat.statCat_bne ln exp fl nt)
+
+/-- Perplexity (`exp`, `ln` parameters). -/
+theorem C01_merge_tree_ppl (exp ln : Q → Q) (v : Nat) (ignore : Option Int) :
+    FamStat.MergeTreeEqFunctional partsAcc (pplStat exp ln v ignore) catPair :=
+  merge_tree_eq_functional partsAcc partsAcc_laws (FamStat.statCat_ppl exp ln v ignore)
+
+/-- the additive part of PeakSignalNoiseRatio (squared error, count). -/
+theorem C01_merge_tree_psnr :
+    FamStat.MergeTreeEqFunctional partsAcc (psnrStat) catPair :=
+  merge_tree_eq_functional partsAcc partsAcc_laws (FamStat.statCat_psnr)
+
+/-- ClickThroughRate (per task row; scalar or tensor weights). -/
+theorem C01_merge_tree_ctr (nt : Nat) :
+    FamStat.MergeTreeEqFunctional partsAcc (ctrStat nt) (catCtr nt) :=
+  merge_tree_eq_functional partsAcc partsAcc_laws (FamStat.statCat_ctr nt)
+
+/-- WeightedCalibration (per task row; scalar or tensor weights). -/
+theorem C01_merge_tree_wc (nt : Nat) :
+    FamStat.MergeTreeEqFunctional partsAcc (wcStat nt) (catWc nt) :=
+  merge_tree_eq_functional partsAcc partsAcc_laws (FamStat.statCat_wc nt)
+
+/-- BinaryBinnedPrecisionRecallCurve counts (any threshold list). -/
+theorem C01_merge_tree_binaryBinned (t : List Q) :
+    FamStat.MergeTreeEqFunctional partsAcc (binaryBinnedStat t) catPair :=
+  merge_tree_eq_functional partsAcc partsAcc_laws (FamStat.statCat_binaryBinned t)
+
+/-- MulticlassBinnedPrecisionRecallCurve / MulticlassBinnedAUPRC counts (both optimisations). -/
+theorem C01_merge_tree_mcBinned (t : List Q) (opt : Binned.Opt) (W : Nat) :
+    FamStat.MergeTreeEqFunctional partsAcc (mcBinnedStat t opt W) catPair :=
+  merge_tree_eq_functional partsAcc partsAcc_laws (FamStat.statCat_mcBinned t opt W)
+
+/-- MultilabelBinnedPrecisionRecallCurve / MultilabelBinnedAUPRC counts (both optimisations). -/
+theorem C01_merge_tree_mlBinned (t : List Q) (opt : Binned.Opt) (L : Nat) :
+    FamStat.MergeTreeEqFunctional partsAcc (mlBinnedStat t opt L) catPair :=
+  merge_tree_eq_functional partsAcc partsAcc_laws (FamStat.statCat_mlBinned t opt L)
+
+/-- BinaryBinnedAUPRC counts (per task row). -/
+theorem C01_merge_tree_binaryBinnedAuprc (t : List Q) (nt : Nat) :
+    FamStat.MergeTreeEqFunctional partsAcc (binaryBinnedAuprcStat t nt) (catTaskPairs nt) :=
+  merge_tree_eq_functional partsAcc partsAcc_laws (FamStat.statCat_binaryBinnedAuprc t nt)
+
+/-- WordErrorRate. -/
+theorem C01_merge_tree_wer {α : Type} [DecidableEq α] :
+    FamStat.MergeTreeEqFunctional partsAcc (werStat (α := α)) catPair :=
+  merge_tree_eq_functional partsAcc partsAcc_laws (FamStat.statCat_wer)
+
+/-- WordInformationPreserved. -/
+theorem C01_merge_tree_wip {α : Type} [DecidableEq α] :
+    FamStat.MergeTreeEqFunctional partsAcc (wipStat (α := α)) catPair :=
+  merge_tree_eq_functional partsAcc partsAcc_laws (FamStat.statCat_wip)
+
+/-- WordInformationLost. -/
+theorem C01_merge_tree_wil {α : Type} [DecidableEq α] :
+    FamStat.MergeTreeEqFunctional partsAcc (wilStat (α := α)) catPair :=
+  merge_tree_eq_functional partsAcc partsAcc_laws (FamStat.statCat_wil)
+
+/-- BLEUScore statistics (n-gram order N). -/
+theorem C01_merge_tree_bleu {α : Type} [DecidableEq α] (N : Nat) :
+    FamStat.MergeTreeEqFunctional partsAcc (bleuStat (α := α) N) catPair :=
+  merge_tree_eq_functional partsAcc partsAcc_laws (FamStat.statCat_bleu N)
+
+/-- cache of (score, target) samples: BinaryAUROC, BinaryAUPRC, BinaryPrecisionRecallCurve, BinaryRecallAtFixedPrecision, a task row of BinaryBinnedAUROC, AUC points. -/
+theorem C01_merge_tree_pairSamples {α β : Type} :
+    FamStat.MergeTreeEqFunctionalOrdered (listAcc (α × β)) (pairSamples (α := α) (β := β)) catPair :=
+  merge_tree_eq_functional_ordered (listAcc (α × β)) (listAcc_laws _) (FamStat.statCat_pairSamples)
+
+/-- cache of (score, target, weight) samples: weighted BinaryAUROC, Wasserstein1D. -/
+theorem C01_merge_tree_tripleSamples {α β γ : Type} :
+    FamStat.MergeTreeEqFunctionalOrdered (listAcc (α × β × γ)) (tripleSamples (α := α) (β := β) (γ := γ)) catTriple :=
+  merge_tree_eq_functional_ordered (listAcc (α × β × γ)) (listAcc_laws _) (FamStat.statCat_tripleSamples)
+
+/-- cache of (row, label / target row) samples: Multiclass/Multilabel AUROC, AUPRC, PR curves, recall@precision, MulticlassBinnedAUROC. -/
+theorem C01_merge_tree_rowSamples {β : Type} :
+    FamStat.MergeTreeEqFunctionalOrdered (listAcc (List Q × β)) (rowSamples (β := β)) catPair :=
+  merge_tree_eq_functional_ordered (listAcc (List Q × β)) (listAcc_laws _) (FamStat.statCat_rowSamples)
+
+/-- Cat. -/
+theorem C01_merge_tree_catSamples {α : Type} :
+    FamStat.MergeTreeEqFunctionalOrdered (listAcc α) (catSamples (α := α)) List.flatten :=
+  merge_tree_eq_functional_ordered (listAcc α) (listAcc_laws _) (FamStat.statCat_catSamples)
+
+/-- HitRate (per-sample values in update order). -/
+theorem C01_merge_tree_hitRate (C : Nat) (k : Option Int) :
+    FamStat.MergeTreeEqFunctionalOrdered (listAcc Q) (hitRateStat C k) catPair :=
+  merge_tree_eq_functional_ordered (listAcc Q) (listAcc_laws _) (FamStat.statCat_hitRate C k)
+
+/-- ReciprocalRank (per-sample values in update order). -/
+theorem C01_merge_tree_reciprocalRank (k : Option Int) :
+    FamStat.MergeTreeEqFunctionalOrdered (listAcc Q) (reciprocalRankStat k) catPair :=
+  merge_tree_eq_functional_ordered (listAcc Q) (listAcc_laws _) (FamStat.statCat_reciprocalRank k)
+
+/-- non-vacuity: MulticlassRecall(macro, 3 classes): shard `a` saw batches of sizes 3 and 1, shard `b`
+    nothing, shard `c` a batch of size 2 and was reset before; merged pairwise into a fresh target.
+    The live batches are the three batches, and the state is the statistic of their concatenation. -/
+example :
+    let b₁ : List Nat × List Nat := ([0, 2, 1], [0, 1, 1])
+    let b₂ : List Nat × List Nat := ([2], [2])
+    let b₃ : List Nat × List Nat := ([1, 0], [1, 2])
+    let outA : Parts → Except Err Parts := fun p => .ok p
+    let a := Hist.update (Hist.update .fresh b₁) b₂
+    let b : Hist (List Nat × List Nat) := .fresh
+    let c := Hist.update (Hist.reset (Hist.update .fresh b₂)) b₃
+    let t := Hist.merge (Hist.merge .fresh [a, b]) [c]
+    flatten t = [b₁, b₂, b₃] ∧
+      (eval (additive partsAcc (mcRecallStat .macro 3) outA) t).toOption = some [[1, 2, 1], [1, 3, 2], [2, 2, 2]] ∧
+      (mcRecallStat .macro 3 (catPair [b₃, b₁, b₂])).toOption = some [[1, 2, 1], [1, 3, 2], [2, 2, 2]] := by
   decide +kernel
 
 end TE.C01
